@@ -171,6 +171,42 @@ def bulk_scenarios(ctx):
                         how, pending, mk, rec.get('got'), rec.get('want')), case)
 
 
+def contract_call_scenarios(ctx):
+    """The same histories entered through a contract interface: contract.default(..) is a call object; .as_transaction() builds a group, .autofill() on it
+    is a fill that injects nothing (a cost preview), .send() fills and injects.  Each send carries the account's next counters."""
+    from ..opclient import Session, make_key
+    KT = 'KT1PWx2mnDueood7fEmfbBDKx1D9BAnnXitn'
+    scripts = (('send', 'send'), ('preview', 'send'), ('send', 'preview', 'send', 'send'), ('preview', 'preview', 'send', 'preview', 'send'), ('fillonly', 'send', 'send'))
+    for mk in ('validated', 'applied'):
+        for script in scripts:
+            s = Session(make_key('tz1'), chain0=CHAIN0, mempool_key=mk, root_ctx=())
+            case = {'contract_call': True, 'script': list(script), 'mempool_key': mk}
+            try:
+                contract = s.client.contract(KT)
+                for n, step in enumerate(script):
+                    call = contract.default().with_amount(n + 1)
+                    if step == 'preview':
+                        call.as_transaction().autofill()
+                    elif step == 'fillonly':
+                        call.as_transaction().fill()
+                    else:
+                        call.send()
+            except Exception as e:   # noqa
+                ctx.mismatch('C25:contract-call:raises-%s' % type(e).__name__, 'contract call history %s raised %s: %s' % (list(script), type(e).__name__, str(e)[:200]), case)
+                continue
+            ctx.count(('contract-call', mk, script), nontrivial=True)
+            ctx.replayed += 1
+            sends = [k for k, st in enumerate(script) if st == 'send']
+            if len(s.node.injections) != len(sends):
+                ctx.mismatch('C25:contract-call:injections', 'contract call history %s: %d injections reached the node, %d sends' % (list(script), len(s.node.injections), len(sends)), case)
+                continue
+            for k, rec in enumerate(s.node.injections):
+                if rec.get('got') != rec.get('want'):
+                    ctx.mismatch('C25:contract-call:wrong-counters', 'contract call history %s (%s): injection #%d carries counters %s, the node demands %s' % (
+                        list(script), mk, k + 1, rec.get('got'), rec.get('want')), case)
+                    break
+
+
 def run(ctx):
     ctx.rule = ('Leg A: OpClient.tla (the client as coded + the ideal counter rule) model-checked per family (all call histories up to the '
                 'bound, builds first in canonical order); Leg B: every history that ends with an injection is replayed through the real client '
@@ -192,6 +228,7 @@ def run(ctx):
     ctx.require_no_violation(r, 'OpClient')
     ctx.require_coverage(r, ['ABuild', 'AFill', 'AAutofill', 'AAutofillFail', 'ASend', 'AInject', 'ABake'])
     bulk_scenarios(ctx)
+    contract_call_scenarios(ctx)
     per_family = {}
     for st in iter_dump(r.dump):
         log, hist, f = st['log'], st['hist'], st['fam']
